@@ -179,6 +179,9 @@ def run(tier, seed):
     v.cov["traces_validated_against_impl"] = len(results)
     v.assumptions += ["a crash point is 'between two file-system calls of the process' (a snapshot taken at a hook point); a single write(2) torn by the kernel or power loss is not modelled",
                       "buffered bytes are not on disk: the snapshot is a copy of the files at the hook point"]
+    # the repository's own tests as drivers: every recorded execution against the monitor half of System.tla
+    from .. import suite
+    suite.check(v, wd)
     return v.finish(
         rule="cases = (operation, k-th file-system hook point during it) pairs, each reopened by a fresh engine and followed by appends + queries; "
              "non-trivial = the crash falls inside the append path (class pre / flushed / cached); distinct by (operation id, k, point name)",
@@ -189,6 +192,9 @@ def replay(path, seed):
     with open(path) as f:
         rep = json.load(f)
     case = rep["case"]
+    if case.get("engine") == "suite":
+        from .. import suite
+        return suite.replay(PROP, path, case)
     wd = workdir(PROP + "-replay")
     res = run_harness("crash", [case["case"]], wd, "replay")[0]
     k = case["crash_point"]["k"]
